@@ -250,13 +250,24 @@ def _alarm(signum, frame):
     raise Hang()
 
 
-def run_findzc(samples, t, step, rate, width, eid, limit=5):
-    """samples: small integer values; t, step in 1/M samples"""
+def run_findzc(samples, t, step, rate, width, eid, limit=5, history=None):
+    """samples: small integer values; t, step in 1/M samples.  history = (position, inserted values): the recording is reached
+    on ONE Wav object by a search (whatever it memoises is filled), then an in-place insert; `samples` is the recording after it."""
     audio, _, errors = mods()
     scale = {1: 1, 2: 100, 4: 100000}[width]
-    vals = [v * scale for v in samples]
-    frames = struct.pack("<" + CODE[width] * len(vals), *vals)
-    wav = audio.Wav(frames, wave._wave_params(1, width, rate, len(vals), "NONE", "not compressed"))
+    pack = lambda xs: struct.pack("<" + CODE[width] * len(xs), *[v * scale for v in xs])
+    if history is None:
+        wav = audio.Wav(pack(samples), wave._wave_params(1, width, rate, len(samples), "NONE", "not compressed"))
+    else:
+        p, ins = history
+        base = samples[:p] + samples[p + len(ins):]
+        wav = audio.Wav(pack(base), wave._wave_params(1, width, rate, len(base), "NONE", "not compressed"))
+        try:
+            wav.findNearestZeroCrossing(secs(min(t, M * len(base)) if t >= 0 else 0, rate), secs(step, rate))
+            _ = wav.duration
+        except Exception:  # noqa - the priming search is not the call under test
+            pass
+        wav.insert(secs(p * M, rate), pack(ins))
     st, ret, hung = "ok", -1, False
     old = signal.signal(signal.SIGALRM, _alarm)
     signal.alarm(limit)
